@@ -25,7 +25,6 @@ package ebpf
 //@   modifies nothing
 //@   sets relCacheMAC = relCacheMAC + 1
 
-
 //@ func (l *Loader) RemoveCircuitIDSubscriber
 //@   trusted writes the circuit_id_subscribers kernel map only
 //@   modifies nothing
